@@ -280,3 +280,19 @@ harness_stubbed!(c17_float_constructor_wrappers, unwind = 2,
         && wraps(|| Epoch::from_jde_qzsst(x), 2, x, TimeScale::QZSST) && wraps(|| Epoch::from_jde_gst(x), 2, x, TimeScale::GST) && wraps(|| Epoch::from_jde_bdt(x), 2, x, TimeScale::BDT), "from_jde_<scale> wrappers");
     v_cover!(x < 0.0, "negative input reachable");
 });
+
+// Un-stubbed twin on a small input shape (quarter days around the MJD / JD origins): the constructors are run end to end with
+// the real Unit x f64, so that a change which keeps the hand-over pattern of the stubbed harness intact for most inputs but
+// produces a different epoch (e.g. a sign-dependent rounding of the fraction) comes back with a natively reproducible input.
+harness!(c17_float_constructors_small_inputs, unwind = 2, |s| {
+    let k = s.i16();
+    s.assume(k > -16_384 && k < 16_384);
+    let x = (k as f64) * 0.25; // -4096.00 .. 4096.00 days in quarter-day steps, negative non-integers included
+    let a = Epoch::from_mjd_in_time_scale(x, TimeScale::TAI);
+    v_assert!(s, a.duration.to_parts() == ((x - MJD_1900) * Unit::Day).to_parts(), "from_mjd_in_time_scale(x) = (x - 15020) days, end to end");
+    // MJD x is x days after 1858-11-17 = 15020 days before 1900-01-01: integer oracle in quarter days
+    let q: i64 = k as i64 - 4 * 15_020; // quarter days relative to 1900-01-01
+    let want = shift_far((0, 0), q as i128 * (NPD as i128 / 4));
+    v_assert!(s, Some(a.duration.to_parts()) == want, "from_mjd_in_time_scale(x) is x days after MJD 0 (exact for quarter days)");
+    v_cover!(k < 0 && k % 4 != 0, "negative non-integer MJD reachable");
+});
